@@ -117,6 +117,25 @@ class C06(Prop):
                 g2 = {"type": typ, "coordinates": a + (e if k > 2 else 0)}
                 tb = e * k
             out.append({"kind": "tiny", "g1": g1, "g2": g2, "tb": tb, "fb": Fraction(0) if typ != "BoundingBox" else Fraction(0), "d": Fraction(3, 4), "defaults": False})
+        # degenerate pairs whose union has measure zero (zero-area boxes, zero-length intervals, unbuffered): the zero-union guard
+        for _ in range(30 if tier == "quick" else 600):
+            a, f = Fraction(rng.randint(0, 8)), Fraction(rng.randint(1, 20)) * 100
+            w = Fraction(rng.randint(0, 4), 2)
+            kind = rng.choice(["flat-boxes", "thin-boxes", "point-intervals", "box-vs-flat"])
+            if kind == "flat-boxes":
+                g1 = {"type": "BoundingBox", "coordinates": [a, f, a + w, f]}
+                g2 = {"type": "BoundingBox", "coordinates": [a, f, a + w + rng.randint(0, 1), f]}
+            elif kind == "thin-boxes":
+                g1 = {"type": "BoundingBox", "coordinates": [a, f, a, f + 100]}
+                g2 = {"type": "BoundingBox", "coordinates": [a, f, a, f + rng.choice([100, 200])]}
+            elif kind == "point-intervals":
+                g1 = {"type": "TimeInterval", "coordinates": [a, a]}
+                g2 = {"type": rng.choice(["TimeInterval", "BoundingBox"]), "coordinates": None}
+                g2["coordinates"] = [a, a] if g2["type"] == "TimeInterval" else [a, f, a, f + 100]
+            else:
+                g1 = {"type": "BoundingBox", "coordinates": [a, f, a + 1, f + 100]}
+                g2 = {"type": "BoundingBox", "coordinates": [a, f, a + 1, f]}
+            out.append({"kind": "degenerate", "g1": g1, "g2": g2, "tb": Fraction(0), "fb": Fraction(0), "d": Fraction(3, 4), "defaults": False})
         return out
 
     # ------------------------------------------------------------------ implementation
